@@ -65,17 +65,22 @@ ApplyReg(rg, e) == [b \in 1..Len(rg) |-> (rg[b] \cup RegSet(e.alloc, b)) \ RegSe
 ExtentOf(m, o) == LET sz == SizeAt(o.t, m[o.b], o.a) IN {<<o.b, x>> : x \in o.a..(o.a + sz - 1)}
 
 (* ------------------------------ reads through the library ------------------------------ *)
-ReadClauses(hp, m, e) ==
+(* stale: objects <<b, a>> whose layout was just redistributed by an in-place update made through ANOTHER handle: what a   *)
+(* retained constructor handle (which caches the offsets of its dynamic parts) then reads wrongly is one named clause.        *)
+ReadClausesS(hp, m, e, stale) ==
   NonEmpty([i \in 1..Len(e.reads) |->
      LET r == e.reads[i] IN
      IF ~InHeap(hp, r.b, r.a) THEN "read:" \o r.route \o ":unknown-object"
      ELSE LET o == HeapAt(hp, r.b, r.a) IN
-          IF r.exc # "" THEN "read:" \o r.route \o ":raised:" \o r.exc
+          IF <<r.b, r.a>> \in stale /\ r.route \in {"ctor", "hybrid"} /\ (r.exc # "" \/ r.v # o.v)
+          THEN "stale:retained-handle-after-redistributing-update-through-another-view"
+          ELSE IF r.exc # "" THEN "read:" \o r.route \o ":raised:" \o r.exc
           ELSE IF Mask(o.t, r.v) # Mask(o.t, o.v) THEN "read:" \o r.route \o ":value@" \o Where(o.t, Mask(o.t, o.v), Mask(o.t, r.v))
           ELSE IF r.v # o.v THEN "read:" \o r.route \o ":ref"
           ELSE IF r.size >= 0 /\ r.size # SizeAt(o.t, m[o.b], o.a) THEN "read:" \o r.route \o ":size"
           ELSE IF o.t.k = "arr" /\ r.strides # <<>> /\ NItems(o.v.sh) > 0 /\ r.strides # Strides(o.t, o.v.sh, ItemW(o.t)) THEN "read:" \o r.route \o ":strides"
           ELSE ""])
+ReadClauses(hp, m, e) == ReadClausesS(hp, m, e, {})
 
 (* ------------------------------ construct (and copy) ------------------------------ *)
 NewObjects(b, t, inp, m, a) ==
@@ -119,6 +124,8 @@ StepResult(e, m1, rg1) ==
          [cl |-> NonEmpty(<<IF ~(Chg(mem, e) \subseteq Regions(e.alloc)) THEN "frame:" \o e.op \o "-changed-bytes" ELSE "",
                             IF bad # {} THEN e.op \o ":object-" \o ObjClause(m1, CHOOSE o \in bad : TRUE) ELSE "">>) \o ReadClauses(heap, m1, e),
           hp |-> heap]
+    [] e.op = "new" /\ InHeap(heap, e.b, e.a) ->        \* the library placed the object on top of a live one: nothing else can be judged
+         [cl |-> <<"alloc:object-placed-on-a-live-object">>, hp |-> heap]
     [] e.op = "new" ->
          LET val == Norm(heap, e.t, e.val)
              cl == ConstructClauses("", e.b, e.a, e.t, val, e, m1)
@@ -126,6 +133,8 @@ StepResult(e, m1, rg1) ==
          IN [cl |-> IF cl # <<>> THEN cl \o ReadClauses(hp, m1, e)
                     ELSE NonEmpty(<<IF ~RefsResolve(hp) THEN "ref:dangling" ELSE "">>) \o ReadClauses(hp, m1, e),
              hp |-> hp]
+    [] e.op = "copy" /\ e.exc = "" /\ InHeap(heap, e.b, e.a) ->
+         [cl |-> <<"alloc:object-placed-on-a-live-object">>, hp |-> heap]
     [] e.op = "copy" ->
          LET src0 == HeapAt(heap, e.src[1], e.src[2])
              \* the source may be a nested compound part of a heap object (a view): spath is the local path to it
@@ -177,7 +186,8 @@ StepResult(e, m1, rg1) ==
                         \* as a whole belongs to the new value: item sizes may be distributed differently)
                         IF TopSkel(el, mb, ea) # TopSkel(el, m0, ea) THEN (IF el.k = "str" THEN "set:string-box-size-changed" ELSE "set:size-or-shape-changed") ELSE "",
                         IF others # {} THEN "set:other-object-changed" ELSE "",
-                        IF ~RefsResolve(hp) THEN "ref:dangling" ELSE "">>) \o nt \o ReadClauses(hp, m1, e),
+                        IF ~RefsResolve(hp) THEN "ref:dangling" ELSE "">>) \o nt
+                      \o ReadClausesS(hp, m1, e, IF lp = <<>> /\ e.path = <<>> /\ e.route # "ctor" /\ Skel(o.t, mb, o.a) # Skel(o.t, m0, o.a) THEN {<<e.b, o.a>>} ELSE {}),
              hp |-> hp]
     [] e.op = "err" ->
          LET bad == {o \in heap : Touched(mem, m1, e, o) /\ ObjClause(m1, o) # ""} IN
@@ -229,6 +239,13 @@ AllocClauses(e) ==
                     r[2] > 0 /\ Overl(e.alloc[i][2], e.alloc[i][2] + e.alloc[i][3], r[1], r[1] + r[2])
              THEN "alloc:overlaps-live-region" ELSE "">>)
 
+(* storage of a live object is never given back to the allocator (it would be handed out again on top of the object) *)
+FreeClauses(e, hp, m1) ==
+  NonEmpty(<<IF \E i \in 1..Len(e.free) : e.free[i][3] > 0 /\
+                 \E o \in hp : o.b = e.free[i][1] /\ SizeAt(o.t, m1[o.b], o.a) # Bad /\
+                    Overl(e.free[i][2], e.free[i][2] + e.free[i][3], o.a, o.a + SizeAt(o.t, m1[o.b], o.a))
+             THEN "free:live-object-freed" ELSE "">>)
+
 TraceInit ==
   /\ tid \in 1..Len(Hist)
   /\ l = 1 /\ done = FALSE
@@ -242,7 +259,7 @@ TraceStep ==
          m1 == ApplyMem(mem, e)
          rg1 == IF e.op = "pickle" THEN PickleReg(e) ELSE ApplyReg(reg, e)
          res0 == IF e.op = "pickle" THEN PickleResult(e, m1) ELSE StepResult(e, m1, rg1)
-         res == [cl |-> AllocClauses(e) \o res0.cl \o (IF e.op = "pickle" THEN ReadClauses(res0.hp, m1, e) ELSE <<>>), hp |-> res0.hp]
+         res == [cl |-> AllocClauses(e) \o FreeClauses(e, res0.hp, m1) \o res0.cl \o (IF e.op = "pickle" THEN ReadClauses(res0.hp, m1, e) ELSE <<>>), hp |-> res0.hp]
      IN /\ mem' = m1 /\ reg' = rg1 /\ heap' = res.hp
         /\ IF res.cl # <<>>
            THEN /\ PrintT(<<"VERDICT", tid, l, Join(res.cl)>>) /\ done' = TRUE /\ l' = l
